@@ -137,6 +137,22 @@ def run(chk, facts):
     except AnchorError as e:
         chk.anchor_fail("R-C17-2", e)
 
+    # the typed tree drops a `type`'s parent silently when its name cannot be converted (`isa.and_then(|isa| Name::try_from(isa).ok())` in
+    # NodeTy::from): that conversion must therefore succeed for every Parent node the checker accepted - the `Node::Parent` arm of
+    # TrueName::try_from(&AST) is unconditional (no guard, e.g. on the constructor arguments the parent is given)
+    try:
+        tf = [f_ for f_ in syn.fns if f_["name"] == "try_from" and f_["mod"] == "check::name::true_name::generic" and "TrueName" in (f_.get("impl_of") or "") and
+              "AST" in (f_.get("impl_trait") or "") and "Box" not in (f_.get("impl_trait") or "")]
+        if not tf:
+            raise AnchorError("TrueName::try_from(&AST) not found")
+        arms_p = [a_ for f_ in tf for n in walk(f_["body"]) if n.get("k") == "match" for a_ in n["arms"] if "Node::Parent" in src(a_["pat"], -30)]
+        okp = bool(arms_p) and all(a_.get("guard") is None for a_ in arms_p)
+        chk.ob("R-C17-2", "Parent-name-conversion-total", okp, "a Parent node is converted to its name whatever arguments it is given" if okp else
+               ("TrueName::try_from(&AST) converts a Parent node only under a guard (`" + src(arms_p[0]["guard"], -30)[:40] + "`): NodeTy::from turns the failure into `no parent` "
+                "silently, and `type T: Base(\"x\")` is emitted without Base" if arms_p else "TrueName::try_from(&AST) has no arm for Node::Parent"), facts.loc_of(tf[0]))
+    except AnchorError as e:
+        chk.anchor_fail("R-C17-2", e)
+
     # ---------------- R-C17-3 ----------------
     consts = {}
     for name, c in syn.consts.items():
